@@ -16,10 +16,11 @@ RULE_TEXT = (
     "fault enumeration for short streams: every single cut position and every pair of cut positions of streams up to 64 bytes, and the "
     "stream cut short (EOF, reset) at every byte position; random beyond: 0-8 messages with payload lengths 0..4096 (boundary-biased), "
     "random cuts incl. all-1-byte chunking, one corrupted header field (protocol version, message type, return code, length < 8), EOF "
-    "inside header / payload, reset, both SOMEIPHeader.read and the SOMEIPReader wrapper. non-trivial = at least one chunk boundary or "
+    "inside header / payload, reset, both SOMEIPHeader.read and the SOMEIPReader wrapper; a quarter of the random plans run one or two more "
+    "connections in the same process (abandoned before, or interleaved with, the judged one), each judged against its own bytes. non-trivial = at least one chunk boundary or "
     "the stream end fell inside a message; distinct = distinct (stream, cut set, ending)"
 )
-PROBES = ["cut_inside_header", "cut_inside_payload", "eof_inside_header", "eof_inside_payload", "rejected_header", "one_byte_chunks", "reset"]
+PROBES = ["other_connections", "cut_inside_header", "cut_inside_payload", "eof_inside_header", "eof_inside_payload", "rejected_header", "one_byte_chunks", "reset"]
 RUNS = {"quick": 30000, "thorough": 2000000}
 
 
@@ -121,7 +122,25 @@ def gen(seed, idx, tier):
                 if 0 < pos + off < len(s) and r.random() < 0.6:
                     cuts.append(pos + off)
             pos += len(p)
-    return {"engine": "stream", "property": ID, "class": "random", "seed": seed, "cfg": {"wrapper": r.random() < 0.4}, "hex": s.hex(), "cuts": cuts, "gap": r.choice([0.0, 0.001, 0.5]), "end": end}
+    plan = {"engine": "stream", "property": ID, "class": "random", "seed": seed, "cfg": {"wrapper": r.random() < 0.4}, "hex": s.hex(), "cuts": cuts, "gap": r.choice([0.0, 0.001, 0.5]), "end": end}
+    if r.random() < 0.25:
+        # the process serves more than one connection: one that was used up or abandoned (cut inside a message, or
+        # ended by a rejected header) before this one starts, and / or one whose chunks interleave with this one's
+        others = []
+        for _ in range(r.randint(1, 2)):
+            osrc = b"".join(msg(r) for _ in range(r.randint(1, 3)))
+            if r.random() < 0.3:
+                osrc = osrc[:16] + msg(r, proto=2) + osrc[16:]
+            if r.random() < 0.5 and len(osrc) > 1:
+                osrc = osrc[: r.randrange(1, len(osrc))]
+            ocuts = sorted(r.sample(range(1, max(2, len(osrc))), min(max(0, len(osrc) - 1), r.randint(0, 6)))) if len(osrc) > 2 else []
+            before = r.random() < 0.5
+            others.append({"hex": osrc.hex(), "cuts": ocuts, "gap": plan["gap"] if not before else 0.001, "end": r.choice(["eof", "open", "open"]), "wrapper": r.random() < 0.6, "t0": 0.0 if before else r.choice([0.0, plan["gap"] / 2])})
+            if before:
+                plan["t0"] = max(plan.get("t0", 0.0), (len(ocuts) + 3) * 0.001 + 0.01)
+        plan["others"] = others
+        plan["class"] = "random-multi"
+    return plan
 
 
 def datagram_view(data):
@@ -177,8 +196,16 @@ def check(plan, res):
     probes = {}
     lib_msgs, lib_stop = datagram_view(data)
     ref_msgs, ref_stop = ref_view(data)
-    reads = [e[5] for e in res.log if e[4] == "read"]
-    errs = [e[5] for e in res.log if e[4] == "read-error"]
+    reads = [e[5] for e in res.log if e[4] == "read" and e[3] == "R"]
+    errs = [e[5] for e in res.log if e[4] == "read-error" and e[3] == "R"]
+    # other connections of the same process: each must see its own bytes only
+    for k, o in enumerate(plan.get("others", [])):
+        actor = f"R{k + 2}"
+        oreads = [e[5] for e in res.log if e[4] == "read" and e[3] == actor]
+        owant, _ = ref_view(bytes.fromhex(o["hex"]))
+        if oreads != owant[: len(oreads)]:
+            viol.append(("EQUIV", {"msg": f"connection {actor} read {len(oreads)} messages that are not a prefix of its own stream's {len(owant)}", "context": "other-connection"}))
+        probes["other_connections"] = probes.get("other_connections", 0) + 1
     end = plan.get("end", "eof")
     # the reference decoder and the library's datagram decoder must agree in the first place (C01/C03 territory; reported here as EQUIV)
     if (lib_msgs, lib_stop) != (ref_msgs, ref_stop):
